@@ -151,6 +151,9 @@ static void one(const int *w, const int *v) {
   CHECK(c.getString() == c.getFullString().substr(0, 16), "short string of a ^ b");
   hash_t d = a; std::string s0 = d.getString(); d ^= b;
   CHECK(d.getString() == d.getFullString().substr(0, 16), "short string after ^= (stale cache)");
+  hash_t m = a; s0 = m.getString(); m ^= b; hash_t cpy(m); hash_t asg; asg = m;
+  CHECK(cpy.getString() == cpy.getFullString().substr(0, 16), "short string of a copy made after getString(); ^= (cache copied)");
+  CHECK(asg.getString() == asg.getFullString().substr(0, 16), "short string of an assigned copy made after getString(); ^= (cache copied)");
   hash_t e = a; s0 = e.getString(); e.clear();
   CHECK(e.getString() == e.getFullString().substr(0, 16), "short string after clear()");
   CHECK(!(a < a), "operator< irreflexive");
